@@ -32,7 +32,7 @@ func (s *strSet) add(v string) {
 func intParts(quick bool) []string {
 	var s strSet
 	s.add("0")
-	ks := []int{1, 2, 3, 16, 17, 18, 19, 20, 21}
+	ks := []int{1, 2, 17, 18, 19, 20, 21}
 	if !quick {
 		ks = ks[:0]
 		for k := 1; k <= 21; k++ {
@@ -45,6 +45,9 @@ func intParts(quick bool) []string {
 		s.add("1" + rep("0", k-1))
 		if !quick || k >= 18 {
 			s.add(mixedDigits[:k])
+		}
+		if !quick || k >= 19 {
+			s.add(rep("5", k)) // 19 digits fit int64, one more digit wraps uint64 back below MaxInt64
 		}
 	}
 	// int64 and uint64 boundary values ±1
@@ -85,7 +88,10 @@ func fracParts(quick bool) []string {
 		}
 		for _, n := range []int{19, 20} {
 			s.add("0" + rep("9", n-1))
+			s.add(rep("5", n))
 		}
+		s.add("0" + mixedDigits[:19])
+		s.add("00" + mixedDigits[:19])
 		for _, n := range []int{18, 19, 20} {
 			s.add(rep("0", n))
 		}
@@ -109,6 +115,7 @@ func fracParts(quick bool) []string {
 		s.add(mixedDigits[:n])
 		s.add("1" + rep("0", n-1)) // trailing zeros
 		s.add(rep("9", n-1) + "0")
+		s.add(rep("5", n))
 	}
 	// long runs behind a few leading zeros
 	for _, z := range []int{1, 2, 5} {
@@ -170,8 +177,18 @@ var numCtxs = []numCtx{
 	{"object", "comma", `{"a":`, `,"b":0}`},
 }
 
+// numClass holds the categorical coordinates of a number literal.
+type numClass struct {
+	int0   string // 0 | 1-18 | 19 | 20+      (integer digits; used by error kinds, where the leading-zero mode matters)
+	int    string // le18 | 19 | 20+
+	frac   string // none | 1-17 | 18+        (fraction digits)
+	fzeros string // - | 0 | 1-17 | 18+       (leading fraction zeros; an all-zero fraction counts its length)
+	exp    string // none | le22 | 23-308 | 309+   (exponent magnitude)
+	expAny string // none | some
+}
+
 // numClasses returns the signature coordinates of a number literal.
-func numClasses(lit string) (ic, fc, zc, ec string) {
+func numClasses(lit string) (nc numClass) {
 	s := strings.TrimPrefix(lit, "-")
 	exp := ""
 	hasExp := false
@@ -185,54 +202,69 @@ func numClasses(lit string) (ic, fc, zc, ec string) {
 	}
 	switch {
 	case s == "0":
-		ic = "0"
+		nc.int0, nc.int = "0", "le18"
 	case len(s) <= 18:
-		ic = "1-18"
+		nc.int0, nc.int = "1-18", "le18"
 	case len(s) == 19:
-		ic = "19"
+		nc.int0, nc.int = "19", "19"
 	default:
-		ic = "20+"
+		nc.int0, nc.int = "20+", "20+"
 	}
-	switch {
-	case !hasFrac:
-		fc, zc = "none", "-"
-	default:
-		switch {
-		case len(frac) <= 17:
-			fc = "1-17"
-		case len(frac) <= 19:
-			fc = "18-19"
-		default:
-			fc = "20+"
+	if !hasFrac {
+		nc.frac, nc.fzeros = "none", "-"
+	} else {
+		if len(frac) <= 17 {
+			nc.frac = "1-17"
+		} else {
+			nc.frac = "18+"
 		}
 		z := len(frac) - len(strings.TrimLeft(frac, "0"))
 		switch {
-		case z == len(frac):
-			zc = "all"
 		case z == 0:
-			zc = "0"
+			nc.fzeros = "0"
 		case z <= 17:
-			zc = "1-17"
+			nc.fzeros = "1-17"
 		default:
-			zc = "18+"
+			nc.fzeros = "18+"
 		}
 	}
-	switch {
-	case !hasExp:
-		ec = "none"
-	default:
-		exp = strings.TrimLeft(exp, "+-")
-		v, err := strconv.Atoi(exp)
+	if !hasExp {
+		nc.exp, nc.expAny = "none", "none"
+	} else {
+		nc.expAny = "some"
+		v, err := strconv.Atoi(strings.TrimLeft(exp, "+-"))
 		switch {
-		case err != nil || v >= 1023:
-			ec = "1023+"
+		case err != nil || v >= 309:
+			nc.exp = "309+"
 		case v <= 22:
-			ec = "0-22"
+			nc.exp = "le22"
 		default:
-			ec = "23-1022"
+			nc.exp = "23-308"
 		}
 	}
 	return
+}
+
+// numSig builds the number signature; the coordinates that matter are chosen
+// per discrepancy kind (DESIGN §2.5), the others are "*".
+func numSig(fe, path, lit, kind string) []string {
+	nc := numClasses(lit)
+	i, f, z, e := "*", "*", "*", "*"
+	switch {
+	case kind == "error" || strings.HasPrefix(kind, "panic"):
+		i, f, z, e = nc.int0, nc.frac, nc.fzeros, nc.exp
+	case kind == "wrong-kind":
+		i = nc.int
+	case kind == "lost-digits:exp-sign":
+		// a cross-cutting loss: the front-end and entry point identify it
+	case kind == "lost-digits":
+		i, f, z = nc.int, nc.frac, nc.fzeros
+	case kind == "wrong-value:inexact" || kind == "wrong-value:nonfinite":
+		e = nc.exp
+	default: // wrong-value
+		i, f, z, e = nc.int, nc.frac, nc.fzeros, nc.expAny
+	}
+	return []string{"num", fe, path, "int=" + i, "frac=" + f, "fzeros=" + z, "exp=" + e, kind}
 }
 
 // ---------------------------------------------------------------- strings
@@ -287,6 +319,33 @@ func seqClasses(seq []int) string {
 		parts[i] = items[k].class
 	}
 	return strings.Join(parts, "+")
+}
+
+// hasEscapedPair reports whether the string body spells a high surrogate
+// escape immediately followed by a low surrogate escape.
+func hasEscapedPair(body string) bool {
+	unit := func(i int) (int, bool) { // \\uXXXX at i?
+		if i+6 > len(body) || body[i] != '\\' || body[i+1] != 'u' {
+			return 0, false
+		}
+		v, err := strconv.ParseUint(body[i+2:i+6], 16, 32)
+		return int(v), err == nil
+	}
+	for i := 0; i < len(body); {
+		if body[i] != '\\' {
+			i++
+			continue
+		}
+		if hi, ok := unit(i); ok {
+			if lo, ok2 := unit(i + 6); ok2 && 0xD800 <= hi && hi <= 0xDBFF && 0xDC00 <= lo && lo <= 0xDFFF {
+				return true
+			}
+			i += 6
+			continue
+		}
+		i += 2 // a short escape
+	}
+	return false
 }
 
 // sequences calls fn with every item sequence of length 0…maxLen, shortest first.
